@@ -52,7 +52,7 @@ func vxMessageHash(l *core.L1HandlerTransaction) []byte {
 func vxNoTicker(context.Context, any, func()) context.CancelFunc { return func() {} }
 
 func VxC18HistoryPrunerMigration() {
-	vx.Bound("chain of 3 blocks with 1..2 transactions each (invoke or L1 handler, any arrangement), one storage-history entry per block, L1 head = chain head; retained blocks 0..1 (oldest kept block 2 or 1); cancellation at the k-th database read of the first run for k in 1..24 (thorough) / a sample of k (quick), or never; resumed until completion (<= 4 runs); one worker goroutine per stage in the engine")
+	vx.Bound("chain of 3 blocks with 1..2 transactions each (invoke or L1 handler, any arrangement), one storage-history entry per block, L1 head 0..2 below or at the chain head, retained blocks 0..3 (oldest kept block 0..2; nothing is pruned when the L1 head lies inside the retention window); cancellation at the k-th database read of the first run for k in 1..24 (thorough) / a sample of k (quick), or never; resumed until completion (<= 4 runs); one worker goroutine per stage in the engine")
 	if vx.InEngine() {
 		vx.Stub("github.com/NethermindEth/juno/migration/progresslogger.CallEveryInterval", vxNoTicker)
 		vx.Stub("(*github.com/NethermindEth/juno/core.L1HandlerTransaction).MessageHash", vxMessageHash)
@@ -86,15 +86,23 @@ func VxC18HistoryPrunerMigration() {
 			core.WriteStateUpdateByBlockNum(d, num, &core.StateUpdate{BlockHash: hashes[b], StateDiff: &diff}) != nil ||
 			core.WriteDeprecatedContractStorageHistory(d, addr, slot, felt.NewFromUint64[felt.Felt](99+num), num) != nil ||
 			core.WriteBlockCommitment(d, num, &core.BlockCommitments{}) != nil ||
-			core.WriteTransactionsAndReceipts(d, num, txs[b], rs) != nil {
+			core.WriteTransactionsAndReceipts(d, num, txs[b], rs) != nil ||
+			core.WriteL1HandlerMsgHashes(d, txs[b]) != nil {
 			vx.Assume(false)
 		}
 	}
-	if core.WriteChainHeight(d, n-1) != nil || core.WriteL1Head(d, &core.L1Head{BlockNumber: n - 1, BlockHash: hashes[n-1], StateRoot: &felt.Zero}) != nil {
+	// the L1 head is the chain head or lies below it; the retention may exceed it (then nothing is pruned)
+	l1 := uint64(n - 1 - vx.Choice("l1-behind", 3))
+	if core.WriteChainHeight(d, n-1) != nil || core.WriteL1Head(d, &core.L1Head{BlockNumber: l1, BlockHash: hashes[l1], StateRoot: &felt.Zero}) != nil {
 		vx.Assume(false)
 	}
-	retained := uint64(vx.Choice("retained", 2))
-	oldest := uint64(n-1) - retained
+	retained := uint64(vx.Choice("retained", 4))
+	oldest := uint64(0) // nothing pruned when the retention window reaches below the first block
+	if l1 >= retained {
+		oldest = l1 - retained
+	} else {
+		vx.Cover("l1-head-inside-the-retention-window")
+	}
 
 	cancelAt := 0
 	if vx.Thorough() {
